@@ -11,7 +11,7 @@
    on every text that contains no non-ASCII decimal digit (in particular on every text
    whose code points are <= 255).  `.` (no DOTALL) matches everything except '\n' (10).
 
-   The pattern strings, the format strings and UNKNOWN come from the source
+   The pattern strings, the format strings and UNKNOWN (DATA) come from the source
    (Gen/ConfigIdConsts.v).  The matcher and the printer below are written by hand for
    exactly these patterns/formats; the strings they implement are *rendered* from the
    model's own width constants ([model_pattern_numeric] ...), and
@@ -214,6 +214,7 @@ Definition W_VERSION : nat := 2.
 Definition SEP : N := 45.                                           (* '-' *)
 Definition LIT_VERSION_OPEN : str := Eval cbv in s2l " (version ".  (* between name and number *)
 Definition LIT_VERSION_CLOSE : N := 41.                             (* ')' *)
+Definition NAME_SEP : str := [32].                                  (* " " between id and name *)
 Definition LIT_NONE : str := Eval cbv in s2l "None".                (* "{}".format(None) *)
 
 Definition is_device_settings (i : config_id) : bool :=
@@ -247,7 +248,7 @@ Definition cid_str (i : config_id) : result str :=
     let* o := cfgid_str i in
     match o with
     | Some s => Ok (s ++ (if name_falsy (cid_name i) then []
-                          else CFGID_NAME_SEP ++ match cid_name i with Some n => n | None => [] end))
+                          else NAME_SEP ++ match cid_name i with Some n => n | None => [] end))
     | None => Err EType            (* unreachable: None + str *)
     end
   else
@@ -369,6 +370,6 @@ Definition model_fmt_devsettings : str :=
   repeat 48 W_DEVICE ++ [SEP] ++ fmt_field "version" W_VERSION.
 Definition model_fmt_nameonly : str :=
   s2l "{name}" ++ LIT_VERSION_OPEN ++ fmt_field "version" W_VERSION ++ [LIT_VERSION_CLOSE].
-(* match groups used for customer, project, device, version, name (0 = None) *)
-Definition model_groups_numeric : list N := [1; 2; 3; 4; 6].
-Definition model_groups_nameonly : list N := [0; 0; 0; 2; 1].
+(* the string constants of cfgid_str and of __str__, as sorted sets *)
+Definition model_cfgidstr_strings : list str := [model_fmt_devsettings; model_fmt_full].
+Definition model_str_strings : list str := [[]; NAME_SEP; model_fmt_nameonly].
